@@ -73,7 +73,7 @@ theorem hasOwner_push_of {T : Tbl} (hT : Tbl.WF T) (k : Key) (x : Nat) {o : Nat}
 /-- `Register(name, t)` on source `o` once `t` is `waiting`: discharges the wake-up exemption of `t` -/
 theorem Inv.register {C W : List Nat} {top top' : Option Nat} {s : State} (h : Inv C (t :: W) top s)
     (o n : Nat) (th : Th) (hth : thFind s.threads t = some th) (hw : th.ts = .waiting) (hdead : th.dead = false)
-    (ho : s.alive o = true) (hon : o < 100 ∨ n = 0)
+    (ho : s.alive o = true) (hon : o < 100 ∨ NameOK n)
     (htop : top = none ∨ top = top' ∨ top = some t)
     (h4 : th.vm = .idling ∨ top' = some t ∨ (n = 0 ∧ Tbl.hasOwner s.waitFor t = false)) :
     Inv C W top' { s with notify := Tbl.push s.notify (o, n) t, waitFor := Tbl.push s.waitFor (t, n) o } := by
@@ -90,7 +90,7 @@ theorem Inv.register {C W : List Nat} {top top' : Option Nat} {s : State} (h : I
           have : src = o ∧ n' = n := by simpa using hk
           rcases hon with hon | hon
           · omega
-          · rw [this.2, hon]
+          · rw [this.2]; exact hon
         · exact h.n.n1 src n' hsrc hne
       · intro k x hx
         simp only [Tbl.getD_push] at hx
